@@ -2,9 +2,9 @@
    Only statements, closed by [exact lemma], with Print Assumptions beneath. *)
 From Coq Require Import String List NArith ZArith Bool Permutation.
 From J5V.lib Require Import Outcome.
-From J5V.model Require Import ReflectDesc ReflectSchema Reflect ReflectOwn ReflectSpec.
+From J5V.model Require Import ReflectDesc ReflectSchema Reflect ReflectOwn ReflectNames ReflectSpec.
 From J5V.gen Require ReflectGen.
-From J5V.proofs Require Import ReflectProofs ExportProofs ReflectInvProofs ReflectPathProofs ReflectFuelProofs ReflectFlattenProofs ReflectCodecProofs ReflectDeclProofs ReflectClassProofs ReflectOrderProofs ReflectWeakProofs ReflectOwnProofs ReflectOwnExactProofs ReflectDeclSpecProofs.
+From J5V.proofs Require Import ReflectProofs ExportProofs ReflectInvProofs ReflectPathProofs ReflectFuelProofs ReflectFlattenProofs ReflectCodecProofs ReflectDeclProofs ReflectClassProofs ReflectOrderProofs ReflectWeakProofs ReflectOwnProofs ReflectOwnExactProofs ReflectDeclSpecProofs ReflectNamesProofs.
 From J5V.model Require Import Export ReflectDecl.
 Import ListNotations.
 
@@ -12,18 +12,25 @@ Import ListNotations.
    ownership of schema names (fix 0e6056c: a schema name asked for by two descriptors is an error).
    [reflect] / [cache_schema] (model/Reflect.v) are that model with the owners erased; the two are
    related once and for all by C18_reader_is_the_erased_reader_or_an_error below, and the theorems
-   stated for [reflect] are carried over by it (the headline ones are restated for [o_reflect]). *)
+   stated for [reflect] are carried over by it (the headline ones are restated for [o_reflect]).
+   Since the repair notes/schb-fix.patch the entry points run checkClientPropertyNames when a build is
+   complete: SchemaSetFromFiles is [o_reflect_checked], SchemaCache.Schema is [o_cache_schema_checked]
+   (model/ReflectNames.v) = [o_reflect] / [o_cache_schema] followed by that check.  The check only adds
+   errors (C18_checked_reader_is_the_reader_or_an_error), so every "if [o_reflect] returns S" theorem
+   below is a theorem about what the code returns. *)
 
 (* The property at full strength, for every abstract descriptor set [D] (no hypothesis at all)
    and every selection of its files: the reader returns a schema set or an error, never panics,
-   never exhausts the fuel [size D]; on success every entry is consistent (names unique, proto
-   paths resolve to fields of the matching kind) and the codec can build the property set and
+   never exhausts the fuel [size D]; on success every entry is consistent (names unique, also among the client
+   properties hoisted through flattening; proto paths resolve to fields of the matching kind) and the codec can build the property set and
    every property of every reflected message type. *)
 Definition C18_full_statement : Prop :=
   forall (D : desc) (fs : list filed),
-    (forall s, o_reflect D fs <> Panic s) /\ o_reflect D fs <> OutOfFuel /\
-    forall S ow, o_reflect D fs = Ok (S, ow) ->
+    (forall s, o_reflect_checked D fs <> Panic s) /\ o_reflect_checked D fs <> OutOfFuel /\
+    forall S ow, o_reflect_checked D fs = Ok (S, ow) ->
       set_consistent D S = true /\
+      (* client property names pairwise distinct through all flatten levels *)
+      (forall k r, lookup S k = Some (Linked r) -> exists cps, client_props_of S r = Ok cps /\ NoDup (map p_json cps)) /\
       forall m r, In m (d_msgs D) -> lookup S (msg_key m) = Some (Linked r) ->
         (* no member error swallowed (codec_classes_strict), and every client property can be given a value *)
         codec_classes_strict D S m r = (0%N, 0%N) /\
@@ -480,13 +487,13 @@ Definition struct_r : root :=
 
 Theorem C18_struct_codec_refuted :
   enums_nonempty struct_desc /\ wf_paths struct_desc /\
-  (exists S ow m r, o_reflect struct_desc (d_files struct_desc) = Ok (S, ow) /\ In m (d_msgs struct_desc) /\
+  (exists S ow m r, o_reflect_checked struct_desc (d_files struct_desc) = Ok (S, ow) /\ In m (d_msgs struct_desc) /\
                 lookup S (msg_key m) = Some (Linked r) /\ set_consistent struct_desc S = true /\
                 codec_classes struct_desc S m r = (0%N, 1%N) /\ codec_classes_strict struct_desc S m r = (0%N, 1%N)) /\
   ~ C18_full_statement.
 Proof.
   split; [intros e []|]. split; [apply wf_paths_b_sound; vm_compute; reflexivity|].
-  assert (Hw : exists S ow m r, o_reflect struct_desc (d_files struct_desc) = Ok (S, ow) /\ In m (d_msgs struct_desc) /\
+  assert (Hw : exists S ow m r, o_reflect_checked struct_desc (d_files struct_desc) = Ok (S, ow) /\ In m (d_msgs struct_desc) /\
                 lookup S (msg_key m) = Some (Linked r) /\ set_consistent struct_desc S = true /\
                 codec_classes struct_desc S m r = (0%N, 1%N) /\ codec_classes_strict struct_desc S m r = (0%N, 1%N)).
   { exists (fst struct_state), (snd struct_state), struct_m, struct_r.
@@ -495,7 +502,7 @@ Proof.
   split; [exact Hw|].
   intros H. destruct Hw as (S & ow & m & r & HS & Hm & Hl & _ & _ & Hc).
   destruct (H struct_desc (d_files struct_desc)) as (_ & _ & Hok).
-  destruct (Hok S ow HS) as [_ Hcodec]. destruct (Hcodec m r Hm Hl) as [Hcs _]. rewrite Hcs in Hc. discriminate.
+  destruct (Hok S ow HS) as (_ & _ & Hcodec). destruct (Hcodec m r Hm Hl) as [Hcs _]. rewrite Hcs in Hc. discriminate.
 Qed.
 Print Assumptions C18_struct_codec_refuted.
 
@@ -521,7 +528,7 @@ Definition duration_pfs : list (prop * option field) :=
 
 Theorem C18_duration_not_settable_refuted :
   wf_paths duration_desc /\
-  o_reflect duration_desc (d_files duration_desc) = Ok duration_state /\
+  o_reflect_checked duration_desc (d_files duration_desc) = Ok duration_state /\
   lookup (fst duration_state) (msg_key duration_m) = Some (Linked duration_r) /\
   set_consistent duration_desc (fst duration_state) = true /\
   codec_classes_strict duration_desc (fst duration_state) duration_m duration_r = (0%N, 0%N) /\
@@ -536,7 +543,9 @@ Proof.
 Qed.
 Print Assumptions C18_duration_not_settable_refuted.
 
-(* 3. flattening does not check names: the client properties of A carry "id" twice *)
+(* 3. (FIXED by notes/schb-fix.patch) flattening did not check names: without the check of the entry points
+   the client properties of A carry "id" twice; with it the set is an error
+   (C18_flatten_names_is_an_error_with_the_repair, C18_client_property_names_distinct) *)
 Definition flatten_names_desc : desc :=
   {| d_msgs := [
        Msg (bytes "p.v1.A") (bytes "p.v1") [bytes "A"]
@@ -549,7 +558,7 @@ Definition flatten_names_desc : desc :=
      d_enums := [];
      d_files := [File (bytes "p/v1/a.proto") (bytes "p.v1") [bytes "p.v1.A"; bytes "p.v1.B"] []] |}.
 
-Theorem C18_flatten_names_refuted :
+Theorem C18_flatten_names_clash_without_the_check :
   enums_nonempty flatten_names_desc /\
   exists S ps cps, reflect flatten_names_desc (d_files flatten_names_desc) = Ok S /\
     lookup S (bytes "p.v1", bytes "A") = Some (Linked (RObject (bytes "A") [] None [] ps)) /\
@@ -560,7 +569,7 @@ Proof.
   - eexists. eexists. eexists. split; [vm_compute; reflexivity|]. split; [vm_compute; reflexivity|].
     split; [vm_compute; reflexivity|]. split; vm_compute; reflexivity.
 Qed.
-Print Assumptions C18_flatten_names_refuted.
+Print Assumptions C18_flatten_names_clash_without_the_check.
 
 (* 4. (found by the independent audit; FIXED in /repo by 07ed85e) protoc checks JSON-name conflicts between
    fields only: an exposed oneof named foo_bar gets the property name lowerCamel("foo_bar") = "fooBar",
@@ -686,10 +695,8 @@ Qed.
 (* ================================================================================================
    Client property names through the flatten levels — the reader WITH the prepared repair
    notes/schb-fix.patch (model/ReflectNames.v: [o_reflect_checked], [o_cache_schema_checked]).
-   [o_reflect] / [o_cache_schema] above are the code as it is, and C18_flatten_names_refuted is
+   [o_reflect] / [o_cache_schema] above are the code as it is, and C18_flatten_names_clash_without_the_check is
    what is wrong with it; the statements below are about the code with the repair applied. *)
-From J5V.model Require Import ReflectNames.
-From J5V.proofs Require Import ReflectNamesProofs.
 
 (* the clause, for ALL descriptor sets and file selections the repaired reader accepts: a reflected
    schema's client property names are pairwise distinct, through all flatten levels
@@ -713,6 +720,22 @@ Theorem C18_checked_reader_fails_as_the_reader_fails : forall D fs,
   (forall s, o_reflect D fs <> Ok s) -> o_reflect_checked D fs = o_reflect D fs.
 Proof. exact o_reflect_checked_not_ok. Qed.
 Print Assumptions C18_checked_reader_fails_as_the_reader_fails.
+
+Theorem C18_checked_full_on_wf_paths : forall D fs,
+  wf_paths D ->
+  (forall s, o_reflect_checked D fs <> Panic s) /\ o_reflect_checked D fs <> OutOfFuel /\
+  forall S ow, o_reflect_checked D fs = Ok (S, ow) ->
+    set_consistent D S = true /\
+    (forall k r, lookup S k = Some (Linked r) -> exists cps, client_props_of S r = Ok cps /\ NoDup (map p_json cps)) /\
+    forall m r, In m (d_msgs D) -> lookup S (msg_key m) = Some (Linked r) ->
+      exists pfs, new_prop_set D S r m = Ok pfs /\
+        ((forall q f, In (q, Some f) pfs -> supported_b (p_schema q) f = true) ->
+         (forall q k n d ops opfs p2 f2, In (q, None) pfs -> p_schema q = FOneof k None None None ->
+            lookup S k = Some (Linked (ROneof n d ops)) -> new_prop_set D S (ROneof n d ops) m = Ok opfs ->
+            In (p2, Some f2) opfs -> supported_b (p_schema p2) f2 = true) ->
+         codec_classes D S m r = (0%N, 0%N) /\ codec_classes_strict D S m r = (0%N, 0%N)).
+Proof. exact o_reflect_checked_full_on_supported. Qed.
+Print Assumptions C18_checked_full_on_wf_paths.
 
 (* the check calls ClientProperties, which has a type assertion and recurses: with distinct split
    names (under which C18_client_properties_terminate holds) it neither panics nor runs out of fuel *)
@@ -743,7 +766,7 @@ Theorem C18_checked_cache_fails_as_the_cache_fails : forall D fuel s m,
 Proof. exact o_cache_schema_checked_not_ok. Qed.
 Print Assumptions C18_checked_cache_fails_as_the_cache_fails.
 
-(* the witness of C18_flatten_names_refuted is an error of the repaired reader, and of the repaired
+(* the witness of C18_flatten_names_clash_without_the_check is an error of the repaired reader, and of the repaired
    cache asked for A *)
 Theorem C18_flatten_names_is_an_error_with_the_repair :
   o_reflect_checked flatten_names_desc (d_files flatten_names_desc) = Err e_client_name /\
